@@ -53,6 +53,11 @@ pub struct Cfg {
     /// of the generated lines: its mere presence must not change anything)
     #[serde(default, skip_serializing_if = "std::ops::Not::not")]
     pub user_rule: bool,
+    /// a user unit family 'troy-weight' (gr, dwt, oz, lb) whose words 'oz' and 'lb' also belong to
+    /// the built-in imperial weights: which family such a word denotes is decided by the
+    /// configuration alone, never by what was evaluated before
+    #[serde(default, skip_serializing_if = "std::ops::Not::not")]
+    pub troy: bool,
     /// update_currency calls, "name=rate", in order
     #[serde(default, skip_serializing_if = "Vec::is_empty")]
     pub rates: Vec<String>,
@@ -95,6 +100,17 @@ impl Cfg {
             }
             if !c.add_dynamic_type_item("fmt", 1, "{value} qq", vec!["{NUMBER:value} {TEXT:type:qq}", "{TEXT:type:qq} {NUMBER:value}"], "{value}", "{value}", vec!["qq".to_string()], Some(d), Some(rounding), Some(remove)) {
                 return Err("add_dynamic_type_item(fmt, 1) rejected".into());
+            }
+        }
+        if self.troy {
+            if !c.add_dynamic_type("troy-weight") {
+                return Err("add_dynamic_type(troy-weight) rejected".into());
+            }
+            for (i, (w, up, down)) in [("gr", "{value} / 24", "{value}"), ("dwt", "{value} / 20", "{value} * 24"), ("oz", "{value} / 12", "{value} * 20"), ("lb", "{value}", "{value} * 12")].iter().enumerate() {
+                let parse = format!("{{NUMBER:value}} {{TEXT:type:{}}}", w);
+                if !c.add_dynamic_type_item("troy-weight", i + 1, &format!("{{value}} {}", w), vec![parse.as_str()], up, down, vec![w.to_string()], None, None, None) {
+                    return Err(format!("add_dynamic_type_item(troy-weight, {}) rejected", w));
+                }
             }
         }
         for r in self.rates.iter() {
